@@ -234,11 +234,29 @@ func (c c26Conc) tok(t string) string {
 }
 
 func (c c26Conc) text(toks []string) string {
-	parts := make([]string, len(toks))
+	// the lexer accepts "# comment" between tokens everywhere except inside [ ... ] (lexDurationExpr
+	// rejects '#': "unexpected character in duration expression"), so comments are not put there
+	var b strings.Builder
+	inBrackets := 0
 	for i, t := range toks {
-		parts[i] = c.tok(t)
+		if i > 0 {
+			if inBrackets > 0 && strings.Contains(c.sep, "#") {
+				b.WriteString(" ")
+			} else {
+				b.WriteString(c.sep)
+			}
+		}
+		switch t {
+		case "[":
+			inBrackets++
+		case "]":
+			if inBrackets > 0 {
+				inBrackets--
+			}
+		}
+		b.WriteString(c.tok(t))
 	}
-	return strings.Join(parts, c.sep)
+	return b.String()
 }
 
 func (c c26Conc) name(id string) string {
